@@ -283,6 +283,17 @@ Theorem old_range_missed_a_record :
   exists id, in_range pfx (pfx ++ maxrune) (pfx ++ id) = false /\ in_range pfx pfx_end (pfx ++ id) = true.
 Proof. exists [244; 143; 191; 191; 122]%N. split; vm_compute; reflexivity. Qed.
 
+(* ---- the listing in terms of the prefix: every entry whose key begins with the record prefix, and nothing else ---- *)
+Section complete.
+  Context {V : Type}.
+  Notation kv := (list N * V)%type.
+  Lemma fr_prefix (l : list kv) : fr pfx pfx_end l = List.filter (fun p => has_prefix pfx (fst p)) l.
+  Proof. unfold fr. apply filter_ext. intros p. symmetry. apply pfx_range. Qed.
+  Theorem pages_complete (l : list kv) (size : Z) : StronglySorted key_lt l -> (1 <= size)%Z ->
+    all_pages (S (length l)) l size [] = Some (List.filter (fun p => has_prefix pfx (fst p)) l).
+  Proof. intros Hs Hz. rewrite <- fr_prefix. apply pages_partition; assumption. Qed.
+End complete.
+
 (* ---- page sizes beyond the ledger ------------------------------------------------------------ *)
 Section clamp.
   Context {V : Type}.
